@@ -13,7 +13,7 @@
 From Coq Require Import NArith ZArith List Bool.
 From ST Require Import Base.Outcome Base.Units Utf.Spec Utf.Tokens Utf.Model Utf.ProofsGeneric Utf.ProofsC01 Utf.ProofsC02 Utf.ApiCoverage.
 From ST Require Utf.LeafBridge Gen.Leaf.
-From ST Require Utf.LoopBridge Utf.LoopBridgeValidate Utf.LoopBridgeExtract Utf.LoopBridgeWrite Utf.LoopBridgeConvert32 Utf.LoopBridgeConvertTo32 Utf.LoopBridgeConvert8To16.
+From ST Require Utf.LoopBridge Utf.LoopBridgeValidate Utf.LoopBridgeExtract Utf.LoopBridgeWrite Utf.LoopBridgeConvert32 Utf.LoopBridgeConvertTo32 Utf.LoopBridgeConvert8To16 Utf.LoopBridgeLatin1.
 Import ListNotations.
 Local Open Scope N_scope.
 
@@ -236,3 +236,40 @@ Proof.
     (fun A => ST.Utf.LoopBridgeConvertTo32.utf32_convert_from_utf16_matches_source l m fuel A Hf)).
 Qed.
 Print Assumptions decoding_passes_match_source.
+
+(* the Latin-1 passes: widening to UTF-16 / UTF-32, and the three conversions to Latin-1 with their validation mode and
+   their substitute_out_of_range flag (sub) *)
+Theorem latin_1_passes_match_source : forall l m (sub : bool) fuel, (length l < fuel)%nat ->
+  (all_lt 256 l = true ->
+     (exists ws, ST.Gen.Leaf.src_utf16_convert_from_latin_1 fuel (ST.Utf.LoopBridge.arr8s l) (Z.of_nat (length l)) = Some ws /\
+        forall d : dst, (length ws <= fst d)%nat ->
+          utf16_convert_from_latin_1 d l = Ok (CSuccess, ((fst d - length ws)%nat, rev (map ST.Utf.LoopBridgeWrite.unit16_of ws) ++ snd d))) /\
+     (exists ws, ST.Gen.Leaf.src_utf32_convert_from_latin_1 fuel (ST.Utf.LoopBridge.arr8s l) (Z.of_nat (length l)) = Some ws /\
+        forall d : dst, (length ws <= fst d)%nat ->
+          utf32_convert_from_latin_1 d l = Ok (CSuccess, ((fst d - length ws)%nat, rev (map ST.Utf.LoopBridgeConvertTo32.unit32_of ws) ++ snd d))) /\
+     (exists e ws,
+        ST.Gen.Leaf.src_latin_1_convert_from_utf8 fuel (ST.Utf.LoopBridge.arr8s l) (Z.of_nat (length l)) (ST.Utf.LoopBridgeConvert32.mode_code m)
+          (ST.Gen.Leaf.b2z sub) = Some (Z.of_N (cerr_code e), ws) /\
+        forall d : dst, (length ws <= fst d)%nat ->
+          latin_1_convert_from_utf8 d l m sub = Ok (e, ((fst d - length ws)%nat, rev (map ST.Utf.LoopBridgeWrite.byte_of ws) ++ snd d)))) /\
+  (all_lt 65536 l = true ->
+     exists e ws,
+        ST.Gen.Leaf.src_latin_1_convert_from_utf16 fuel (ST.Utf.LoopBridge.arr32 l) (Z.of_nat (length l)) (ST.Utf.LoopBridgeConvert32.mode_code m)
+          (ST.Gen.Leaf.b2z sub) = Some (Z.of_N (cerr_code e), ws) /\
+        forall d : dst, (length ws <= fst d)%nat ->
+          latin_1_convert_from_utf16 d l m sub = Ok (e, ((fst d - length ws)%nat, rev (map ST.Utf.LoopBridgeWrite.byte_of ws) ++ snd d))) /\
+  (all_lt 4294967296 l = true ->
+     exists e ws,
+        ST.Gen.Leaf.src_latin_1_convert_from_utf32 fuel (ST.Utf.LoopBridge.arr32 l) (Z.of_nat (length l)) (ST.Utf.LoopBridgeConvert32.mode_code m)
+          (ST.Gen.Leaf.b2z sub) = Some (Z.of_N (cerr_code e), ws) /\
+        forall d : dst, (length ws <= fst d)%nat ->
+          latin_1_convert_from_utf32 d l m sub = Ok (e, ((fst d - length ws)%nat, rev (map ST.Utf.LoopBridgeWrite.byte_of ws) ++ snd d))).
+Proof.
+  exact (fun l m sub fuel Hf => conj
+    (fun A => conj (ST.Utf.LoopBridgeLatin1.utf16_convert_from_latin_1_matches_source l fuel A Hf)
+             (conj (ST.Utf.LoopBridgeLatin1.utf32_convert_from_latin_1_matches_source l fuel A Hf)
+                   (ST.Utf.LoopBridgeLatin1.latin_1_convert_from_utf8_matches_source l m sub fuel A Hf)))
+    (conj (fun A => ST.Utf.LoopBridgeLatin1.latin_1_convert_from_utf16_matches_source l m sub fuel A Hf)
+          (fun A => ST.Utf.LoopBridgeLatin1.latin_1_convert_from_utf32_matches_source l m sub fuel A Hf))).
+Qed.
+Print Assumptions latin_1_passes_match_source.
